@@ -43,11 +43,15 @@ def _work(job):
                     # reached only in part
                     import shutil as _sh
                     done = []
-                    for dd in range(confkw["nd"]):
-                        for f in sorted(os.listdir(c.ddir(dd))):
-                            src = c.path(dd, f); dst = c.path((dd + 1) % confkw["nd"], f)
-                            if f != "zz" and os.path.isfile(src) and not os.path.lexists(dst) and os.path.getsize(src) > 1024 and len(done) < 2:
-                                _sh.copy2(src, dst); done.append("%d/%s" % (dd, f))
+                    cf = rec.lines[-1]["state"]["cf"]
+                    # first the files the stopped sync went through only in part (synced blocks followed by pending ones)
+                    partial = [(dd, f) for dd in range(confkw["nd"]) for f, e in sorted(cf.get(str(dd), {}).items())
+                               if len(set(b["st"] for b in e["bl"])) > 1]
+                    others = [(dd, f) for dd in range(confkw["nd"]) for f in sorted(os.listdir(c.ddir(dd))) if (dd, f) not in partial]
+                    for dd, f in partial + others:
+                        src = c.path(dd, f); dst = c.path((dd + 1) % confkw["nd"], f)
+                        if f != "zz" and os.path.isfile(src) and not os.path.lexists(dst) and os.path.getsize(src) > 1024 and len(done) < 2:
+                            _sh.copy2(src, dst); done.append("%d/%s%s" % (dd, f, " (partly synced)" if (dd, f) in partial else ""))
                     if done:
                         rec.env("cp -p %s to the next disk" % " ".join(done)); d.append("cp -p %s to the next disk" % " ".join(done))
                 c.clock += 10
